@@ -2,5 +2,5 @@ CONSTANTS NodeId = 5  NT = 1  NR = 1  Walk = FALSE  WalkLen = 0  PoolN = 16  Cfg
 CONSTANT Objs <- MCObjs  ObjOrder <- MCOrder  V0 <- MCV0  TC0 <- TC14W  RC0 <- RC14W  Sync0 <- S12  Letters <- L14W  ProbeLetters <- P14W  Probe2Letters <- PNone
 INIT Init
 NEXT Next
-VIEW View
+VIEW ViewM
 INVARIANT InvPdo
